@@ -125,6 +125,11 @@ def targets(tier='quick'):
     # ... and both rotate between the system basis and the eigenbasis of the coupling operator in the same way (contracts of C05)
     from . import c05
     T += c05.rotation_targets(PROP, rp)
+    # ... and TEMPO's back end is given the same ingredients (transform of the bath, propagators of the system from start_time, ...)
+    from . import prep
+    T += [t for t in prep.targets(PROP, rp) if 'MeanField' not in t.name]
+    from . import nasvd
+    T += nasvd.targets(PROP, 'svd_sweep_parameters')
     return T
 
 
